@@ -23,6 +23,8 @@ func init() {
 			"Decides these necessary conditions; does not decide full differential conformance over all byte strings.",
 		Run: runC20,
 		Mutants: []Mutant{
+			{Name: "udp-payload-not-copied", File: "internal/client/socks5/udp_relay.go", Rule: "R-C20-G8",
+				Old: "\t\tdataCopy := make([]byte, n)\n\t\tcopy(dataCopy, buf[:n])\n\t\tgo r.handlePacket(dataCopy)\n", New: "\t\tgo r.handlePacket(buf[:n])\n"},
 			{Name: "const-cmd-udp-wrong", File: "internal/client/socks5/listener.go", Rule: "R-C20-1",
 				Old: "CmdUDPAssoc    = 0x03", New: "CmdUDPAssoc    = 0x04"},
 			{Name: "handshake-buffered-reader", File: "internal/client/socks5/listener.go", Rule: "R-C20-2",
